@@ -1,8 +1,10 @@
 import TensorModel.Proofs.Transpose
 import TensorModel.Proofs.Roll
+import TensorModel.Proofs.Compact
 /-!
   C03 — transposition is a pure permutation of axes.
-  Property theorems only; helper lemmas live in `TensorModel/Proofs/Transpose.lean`.
+  Property theorems only; helper lemmas live in `TensorModel/Proofs/Transpose.lean` (and `Proofs/Roll.lean`,
+  `Proofs/Compact.lean`).
 -/
 namespace TM.C03
 
@@ -68,15 +70,100 @@ theorem apT_vector_offset (a b s0 s1 i j : Int) (hv : isVector [a, b] = true)
     dot [i, j] (vectorTStrides b s0 s1) = dot [j, i] [s0, s1] := by
   exact vectorT_dot a b s0 s1 i j hv hi hj
 
-/-- `Transpose()` of a vector with a pending transpose (one stride per axis) moves no data, drops the pending
+/-- `Transpose()` of a vector with a pending transpose (one stride per axis; a view, or a tensor whose array is in the
+    default layout of the pattern the transpose started from) moves no data, drops the pending
     transpose and leaves every element where it was: each in-box coordinate addresses the cell it addressed before,
     whatever the vector's strides are. -/
 theorem transpose_vector_pure (st : St) (t : Dense) (o : AP) (hold : t.old = some o) (hv : isVector t.shape = true)
-    (hns : isScalar t.shape = false) (hl : t.ap.strides.length = t.ap.shape.length)
+    (hk : (t.view || Dense.isDefaultLayout o t.win.len) = true) (hns : isScalar t.shape = false) (hl : t.ap.strides.length = t.ap.shape.length)
     (hdl : (Dense.defaultStrides t.ap.o.col t.shape).length = t.ap.shape.length) :
     ∃ t', Dense.transpose st t = .ok (st, t') ∧ t'.old = none ∧ t'.shape = t.shape ∧ t'.win = t.win ∧
       ∀ c, inBox t.shape c = true → dot c t'.ap.strides = dot c t.ap.strides := by
-  exact transpose_vector st t o hold hv hns hl hdl
+  exact transpose_vector st t o hold hv hk hns hl hdl
+
+/-- **Physical transposition of a tensor that owns its data, the array not being in the default layout of the pattern
+    the pending transpose started from** (the clone of a non-contiguous view keeps the view's window and strides; the
+    `SafeT()` copy of a lazily transposed tensor keeps the permuted pattern — after the repair of findings F16 / F120,
+    where the copying engine gathered into the head of an over-long window and the in-place engine followed cycles
+    computed for a standard layout and panicked; now neither engine is asked, so the two builds agree): row-major
+    tensors. The call succeeds, the pending transpose is gone, the tensor keeps its transposed shape under the default
+    strides over a buffer of its own of exactly `size` cells, and cell `k` of that buffer holds the element the lazily
+    transposed tensor had at the coordinate of row-major rank `k`: no logical element changes, the storage is in the
+    logical order of the transposed tensor, and no cell that existed before is changed. Any rank, any pattern. -/
+theorem transpose_compacts_rowMajor (st : St) (t : Dense) (o : AP)
+    (hold : t.old = some o) (hv : t.view = false) (hnd : Dense.isDefaultLayout o t.win.len = false)
+    (hns : isScalar t.shape = false) (hrow : t.ap.o.col = false)
+    (hnm : t.mask = none) (hlen0 : t.win.len ≠ 0) (hlen1 : t.win.len ≠ 1)
+    (hl : t.ap.strides.length = t.ap.shape.length) (hp : ∀ d ∈ t.ap.shape, 0 < d)
+    (hcap : t.win.len ≤ t.win.cap) (hbuf : t.win.buf < st.heap.size)
+    (hr : ∀ c ∈ allCoords t.ap.shape, 0 ≤ dot c t.ap.strides ∧ dot c t.ap.strides < (t.win.len : Int))
+    (hs : Has st t.win.buf t.win.off t.win.len) :
+    ∃ st' t', Dense.transpose st t = .ok (st', t') ∧ t'.old = none ∧ t'.tw = none ∧ t'.ap.shape = t.ap.shape ∧
+      t'.ap.strides = calcStrides t.ap.shape ∧ t'.ap.o = {} ∧
+      t'.win = ⟨st.heap.size, 0, (totalSize t.shape).toNat, (totalSize t.shape).toNat⟩ ∧ t'.mask = none ∧
+      (∀ x ∈ allCoords t.ap.shape,
+        cell st' st.heap.size (rowRank t.ap.shape x).toNat =
+          some (cellD st t.win.buf (t.win.off + (dot x t.ap.strides).toNat))) ∧
+      (∀ b k, b < st.heap.size → cell st' b k = cell st b k) := by
+  obtain ⟨w1, w2, w3⟩ := rowDefault_wf t.ap.shape hp
+  have e : Dense.defaultStrides t.ap.o.col t.ap.shape = calcStrides t.ap.shape := by
+    simp [Dense.defaultStrides, hrow]
+  have := transpose_compacts' st t o hold hv hnd hns hnm hlen0 hlen1 hl hp hcap hbuf hr hs
+    (by rw [e]; exact w1) (by rw [e]; exact w2) (by rw [e]; exact w3)
+  have e' : Dense.defaultStrides false t.ap.shape = calcStrides t.ap.shape := by simp [Dense.defaultStrides]
+  simp only [hrow, e'] at this
+  exact this
+
+/-- … column-major tensors (one stride per axis: the shape is not scalar-equivalent): cell `k` of the new buffer holds
+    the element at the coordinate of column-major rank `k` — the storage is in the tensor's own data order. -/
+theorem transpose_compacts_colMajor (st : St) (t : Dense) (o : AP)
+    (hold : t.old = some o) (hv : t.view = false) (hnd : Dense.isDefaultLayout o t.win.len = false)
+    (hns : isScalar t.shape = false) (hnv : isVector t.shape = false) (hcol : t.ap.o.col = true)
+    (hse : isScalarEquiv t.ap.shape = false)
+    (hnm : t.mask = none) (hlen0 : t.win.len ≠ 0) (hlen1 : t.win.len ≠ 1)
+    (hl : t.ap.strides.length = t.ap.shape.length) (hp : ∀ d ∈ t.ap.shape, 0 < d)
+    (hcap : t.win.len ≤ t.win.cap) (hbuf : t.win.buf < st.heap.size)
+    (hr : ∀ c ∈ allCoords t.ap.shape, 0 ≤ dot c t.ap.strides ∧ dot c t.ap.strides < (t.win.len : Int))
+    (hs : Has st t.win.buf t.win.off t.win.len) :
+    ∃ st' t', Dense.transpose st t = .ok (st', t') ∧ t'.old = none ∧ t'.tw = none ∧ t'.ap.shape = t.ap.shape ∧
+      t'.ap.strides = prefixProds 1 t.ap.shape ∧ t'.ap.o = { col := true } ∧
+      t'.win = ⟨st.heap.size, 0, (totalSize t.shape).toNat, (totalSize t.shape).toNat⟩ ∧ t'.mask = none ∧
+      (∀ x ∈ allCoords t.ap.shape,
+        cell st' st.heap.size (colRank t.ap.shape x).toNat =
+          some (cellD st t.win.buf (t.win.off + (dot x t.ap.strides).toNat))) ∧
+      (∀ b k, b < st.heap.size → cell st' b k = cell st b k) := by
+  obtain ⟨w0, w1, w2, w3⟩ := colDefault_wf t.ap.shape hp hse hnv
+  have e : Dense.defaultStrides t.ap.o.col t.ap.shape = calcStridesCol t.ap.shape := by
+    simp [Dense.defaultStrides, hcol]
+  have := transpose_compacts' st t o hold hv hnd hns hnm hlen0 hlen1 hl hp hcap hbuf hr hs
+    (by rw [e]; exact w1) (by rw [e]; exact w2) (by rw [e]; exact w3)
+  have e' : Dense.defaultStrides true t.ap.shape = prefixProds 1 t.ap.shape := by
+    simp [Dense.defaultStrides, w0]
+  simp only [hcol, e'] at this
+  exact this
+
+/-- non-vacuity (the transposition witness of finding F16): the clone of the first two columns of a 3×3 matrix —
+    window of eight cells, strides (3, 1), not a view — lazily transposed; `Transpose()` gives it a buffer of six
+    cells holding the transposed listing (before the repair: gathered into the head of the eight-cell window) -/
+def tcSt : St := { heap := #[#[.src 0 0, .src 0 1, .src 0 2, .src 0 3, .src 0 4, .src 0 5, .src 0 6, .src 0 7]] }
+def tcOld : AP := { shape := [3, 2], strides := [3, 1], fin := true, o := { nonContig := true } }
+def tcClone : Dense := { ap := { shape := [2, 3], strides := [1, 3], fin := true, o := { nonContig := true, transposed := true } },
+                         old := some tcOld, tw := some [1, 0], win := ⟨0, 0, 8, 8⟩, dt := "i16" }
+example : Dense.isDefaultLayout tcOld tcClone.win.len = false ∧ tcClone.view = false ∧
+    (match Dense.transpose tcSt tcClone with
+     | .ok (s, r) => r.old.isNone && r.ap.shape == [2, 3] && r.ap.strides == [3, 1] && r.win == ⟨1, 0, 6, 6⟩ &&
+         (s.heap[1]? == some #[.src 0 0, .src 0 3, .src 0 6, .src 0 1, .src 0 4, .src 0 7]) && (s.heap[0]? == tcSt.heap[0]?)
+     | _ => false) = true := by decide
+/-- … and (the shape of finding F120) the `SafeT()` copy of a lazily transposed (1,2,3) tensor: the pattern its pending
+    transpose started from is itself permuted; the elements are collected by coordinate -/
+def tcOld2 : AP := { shape := [3, 2, 1], strides := [1, 3, 6], fin := true, o := { nonContig := true, transposed := true } }
+def tcSafe : Dense := { ap := { shape := [1, 2, 3], strides := [6, 3, 1], fin := true, o := { nonContig := true, transposed := true } },
+                        old := some tcOld2, tw := some [2, 1, 0], win := ⟨0, 0, 6, 8⟩, dt := "f64" }
+example : Dense.isDefaultLayout tcOld2 tcSafe.win.len = false ∧
+    (match Dense.transpose tcSt tcSafe with
+     | .ok (s, r) => r.old.isNone && r.ap.strides == [6, 3, 1] && r.win == ⟨1, 0, 6, 6⟩ &&
+         (s.heap[1]? == some #[.src 0 0, .src 0 1, .src 0 2, .src 0 3, .src 0 4, .src 0 5])
+     | _ => false) = true := by decide
 
 /-- Undoing a lazy transpose restores the original tensor exactly (metadata and storage window). -/
 theorem UT_T (st : St) (t t' : Dense) (axes : List Int) (hold : t.old = none) (htw : t.tw = none)
